@@ -459,6 +459,7 @@ func (g *Gen) dumpThes(seg string) {
 }
 
 func (g *Gen) dumpAll(seg string) {
+	g.emit("q header %s", seg)
 	g.dumpIndex(seg)
 	g.dumpStored(seg)
 	g.dumpDv(seg, "-")
